@@ -206,7 +206,10 @@ fn install_transport() {
                 let hit = c.faults_only.is_empty() || ptype.contains(c.faults_only.as_str());
                 let drop_req = n.rng.chance(c.p_drop_req) && hit;
                 let drop_resp = n.rng.chance(c.p_drop_resp) && hit;
-                let dup = n.rng.chance(c.p_dup) && hit;
+                // a unary gRPC call over TCP is not delivered twice; duplication models re-sent protocol messages
+                // (raft RPCs, naming sync), whose handlers must be idempotent - not a forwarded client write, which the
+                // product never re-sends
+                let dup = n.rng.chance(c.p_dup) && hit && ptype != "RaftRouteRequest";
                 (target, blocked, lat1, lat2, drop_req, drop_resp, dup, c.timeout_ms, dst_id)
             });
             sim::count("net.sent", 1);
